@@ -14,7 +14,7 @@ graphs on <= 4 (quick) / <= 5 (thorough) vertices without isolated vertices, giv
 QuantumState, plus random graphs (connected and not, random vertex orders).
 (v) STABILIZER TARGETS THAT ARE NOT GRAPH STATES (`check_stab_target`): the real solver is given a CliffordTableau — a graph state under random
 local Cliffords with random signs (no product qubit: C02.solver_complete_stabilizer says the model returns), or a random Clifford state (often
-with a product qubit: the general form of D3, C02.isolated_vertex_raises / Solver.solve_isolated_raises_stabilizer) — and compared exactly with
+with a product qubit: mostly the general form of D3, C02.isolated_vertex_raises / Solver.solve_isolated_raises_stabilizer) — and compared exactly with
 the model on the same rows (operations per wire; on a raise: the error class); the returned circuit must prepare target ⊗ |0..0> on the real
 stabilizer backend (forced 0 / 1) and under the verified tableau semantics (`circ.stab`, several outcome scripts), both compared through the
 independent signed-group canonicaliser.  These targets reach the absorption branches with photon Pauli Y / Z that graph targets never take.
@@ -43,8 +43,9 @@ TRUSTED_BASE = [
 ]
 ASSUMPTIONS = ["targets with an isolated vertex are the known finding D3 (solver raises IndexError) and are evaluated only for that finding; "
                "they (and the empty graph, ValueError) are exactly the targets excluded by the hypotheses of C02.solver_complete",
-               "stabilizer targets with a product qubit (a group element supported on one qubit) are the same finding in its general form: the "
-               "implementation must raise with the error class of the model (exact comparison), a different behaviour is reported"]
+               "stabilizer targets with a product qubit (a group element supported on one qubit) are outside C02.solver_complete_stabilizer; most of them "
+               "are the same finding in its general form (IndexError), a few (product qubit = first photon) are solved correctly: the implementation must "
+               "behave exactly as the model (same error class, or the same circuit, which is then validated like every other)"]
 
 KEY_D3 = "solve:target-has-isolated-vertex:raises"
 
